@@ -120,9 +120,12 @@ structure Fixes where
   compose : Bool      -- wcsnorm_compose_s: the same
   deriving Repr, DecidableEq
 
-/-- the tree as it stands -/
-def current : Fixes := ⟨false, false, false, false, false, false, false⟩
+/-- the code before any repair (what the `_partial` / `_witness` theorems are about) -/
+def unrepaired : Fixes := ⟨false, false, false, false, false, false, false⟩
 def allFixed : Fixes := ⟨true, true, true, true, true, true, true⟩
+/-- the tree as it stands: the ONE line to change when fixes/*.diff are applied to /repo
+(`allFixed`, or single fields when only some are applied) -/
+def current : Fixes := unrepaired
 
 /-- what the caller sees -/
 structure Out where
